@@ -394,12 +394,14 @@ func cycleAt(texts [][]itemT) int {
 				we(b.Guard)
 				we(b.Ret)
 				for i := range b.Stmts {
-					if st := &b.Stmts[i]; st.K == "set" {
-						if _, ok := vars[st.X]; ok {
-							out[st.X] = true
+					for st := &b.Stmts[i]; st != nil; st = st.S {
+						if st.K == "set" {
+							if _, ok := vars[st.X]; ok {
+								out[st.X] = true
+							}
 						}
+						we(st.E)
 					}
-					we(b.Stmts[i].E)
 				}
 			}
 			we(it.E)
